@@ -26,7 +26,7 @@ FAMS = ("qp", "oscillating", "sinus", "exp_wall", "qp_quartic", "quantized", "of
 
 
 def floors(tier):
-    return {"calls": 2500, "multi_trial_calls": 500, "returned_none": 40, "points_checked": 6000, "step_at_max": 100, "calls_with_a_nan_trial_value": 80, "calls_with_an_optimisation_nested_in_the_objective": 150, "calls_with_single_precision_point": 150, "__nontrivial__": 500}
+    return {"calls": 2500, "multi_trial_calls": 500, "returned_none": 40, "points_checked": 6000, "step_at_max": 100, "calls_with_a_nan_trial_value": 80, "calls_with_an_optimisation_nested_in_the_objective": 150, "calls_with_single_precision_point": 150, "calls_with_a_subnormal_direction_component_limiting_the_step": 150, "__nontrivial__": 500}
 
 
 def make_objective(rng, fam, n):
@@ -176,6 +176,19 @@ def run(spec):
         for j in range(spec["count"]):
             fam, n, f, g, lb, ub, x0, d = one_call(rng)
             mode = "callable" if rng.random() < 0.8 else "2-point"
+            if j % 6 == 3 and n >= 2 and mode == "callable":
+                # magnitudes: one variable lives on the 1e-305 scale (coordinate, bound and the gap between them), its component of the
+                # direction is a subnormal number, and its bound is the one that limits the step (a few units to a few dozen)
+                r1, r2 = float(rng.uniform(0.5, 2.0)), float(rng.uniform(0.5, 2.0))
+                up = bool(rng.random() < 0.5)
+                U, gap = 1.04e-305 * r1, 6e-308 * r2
+                M = float(np.exp(rng.uniform(np.log(1.2), np.log(40.0))))
+                lb, ub, x0, d = lb.copy(), ub.copy(), x0.copy(), d.copy()
+                lb[0], ub[0] = (0.0, U) if up else (-U, 0.0)
+                x0[0] = (U - gap) if up else -(U - gap)
+                d[0] = (gap / M) * (1.0 if up else -1.0)
+                if abs(d[0]) < np.finfo(float).tiny:
+                    out.count("calls_with_a_subnormal_direction_component_limiting_the_step")
             log = []
 
             nested = {"on": False, "use": bool(j % 6 == 4), "runs": 0}
